@@ -51,3 +51,6 @@ func XExchangeServiceInfoRound(ctx context.Context, transport Transport, mtu uin
 func XNewEAT(guid protocol.GUID, nonce protocol.Nonce, fdoClaim any) XEatoken {
 	return newEAT(guid, nonce, fdoClaim, nil)
 }
+
+// XContext prepares a context the way the exported entry points (TO2, DI, ...) do before calling the internals.
+func XContext(ctx context.Context) context.Context { return contextWithErrMsg(ctx) }
